@@ -11,7 +11,7 @@ from __future__ import annotations
 
 from .interp import strip_typed
 
-EPS = 1e-12
+EPS = 1e-30
 
 
 def canon(t):
@@ -47,13 +47,15 @@ def _pack(p: dict):
     return ("poly", items)
 
 
+def _sig(x: float) -> float:
+    return float(f"{x:.12g}")
+
+
 def _round(c: complex):
     c = complex(c)
-    re, im = c.real, c.imag
-    re = round(re, 12)
-    im = round(im, 12)
+    re, im = _sig(c.real), _sig(c.imag)
     if im == 0:
-        if re == int(re):
+        if re == int(re) and abs(re) < 1e15:
             return int(re)
         return re
     return complex(re, im)
@@ -157,8 +159,8 @@ def is_const(t, value, tol: float = 1e-12) -> bool:
         return False
     p = {m: c for m, c in p.items() if abs(c) > EPS}
     if not p:
-        return abs(value) < tol
-    return set(p) == {()} and abs(p[()] - value) <= tol * max(1.0, abs(value))
+        return value == 0
+    return set(p) == {()} and abs(p[()] - value) <= tol * max(abs(p[()]), abs(value))
 
 
 def monomials(t) -> dict:
